@@ -44,7 +44,11 @@ def param_file(nrec, enc_unused, fmt, seed):
     with mciipm.VbsWriter(f, blocked=(fmt == '1014')) as w:
         for i in range(nrec):
             n = 1 + (i * 37 + seed) % 300
-            w.write(bytes((j * 7 + i * 13 + seed) % 256 for j in range(n)))
+            if i % 4 == 1:
+                # records made of / wrapped in bytes that are whitespace in one of the codecs (0x20, 0x40, 0x0a, 0x00)
+                w.write([b' ', b'\x40' * 5, b'\n', b'  x\x40\x40', b'\x00', b'\x20\x40text\x40\x20'][(i // 4) % 6])
+            else:
+                w.write(bytes((j * 7 + i * 13 + seed) % 256 for j in range(n)))
     return f.getvalue()
 
 
